@@ -108,3 +108,62 @@ def run_conv_schema(rnd, seed, budget, hist, distinct, build_module):
             failures.append({"kind": "P", "part": "converted", "only_unique_items": only_unique, "features": ["converted", mode, cname], "py": tpy, "conversion": cname, "mode": mode, "so": so,
                              "value": repr(v)[:300], "serialized": out, "real": sch, "why": why, "k_ok": None})
     return failures, n
+
+
+# ---------------------------------------------------------------------------------------------- serialized methods
+METH_HEADER = '''
+from dataclasses import dataclass, field
+from typing import *
+from apischema import serialized, Undefined, UndefinedType, alias
+
+def h_str(error: Exception, obj: Any, alias: str) -> str: return "error:" + alias
+def h_undef(error: Exception, obj: Any, alias: str) -> UndefinedType: return Undefined
+def h_raise(error: Exception, obj: Any, alias: str) -> NoReturn: raise error
+def h_optint(error: Exception, obj: Any, alias: str) -> Optional[int]: return None
+'''
+RETURNS = [("int", "self.x"), ("Optional[int]", "self.x if self.x % 2 else None"), ("str", "str(self.x)"), ("List[int]", "[self.x] * (self.x % 3)"),
+           ("Union[int, UndefinedType]", "self.x if self.x % 2 else Undefined"), ("Optional[str]", "None"), ("bool", "self.x > 1")]
+HANDLERS = [None, None, "None", "None", "h_str", "h_undef", "h_raise", "h_optint"]        # None = no error_handler argument
+
+
+def gen_method_class(rnd, i):
+    lines = ["@dataclass", f"class M{i}:", "    x: int"]
+    for j in range(rnd.randint(1, 3)):
+        rt, body = rnd.choice(RETURNS); h = rnd.choice(HANDLERS); raises = rnd.random() < 0.6; prop = rnd.random() < 0.3
+        args = []
+        if rnd.random() < 0.3: args.append(f"'al{j}'")
+        if h is not None: args.append(f"error_handler={h}")
+        lines.append(f"    @serialized" + (f"({', '.join(args)})" if args else ""))
+        if prop: lines.append("    @property")
+        lines += [f"    def m{j}(self) -> {rt}:"] + ([f"        if self.x < 0: raise RuntimeError('negative')"] if raises else []) + [f"        return {body}"]
+    return f"M{i}", lines
+
+
+def run_method_schema(rnd, seed, budget, hist, distinct, build_module):
+    """C07 on serialized methods: what `serialize` emits for them - the value, the value of the error handler (`None` for
+    error_handler=None), or nothing for Undefined - validates against the serialization schema"""
+    import jsonschema
+    from apischema import serialize, settings
+    from apischema.json_schema import serialization_schema
+    classes = [gen_method_class(rnd, i) for i in range(60 * budget)]
+    mod = build_module(METH_HEADER + "\n" + "\n".join(l for _, ls in classes for l in ls + [""]), f"c07meth_{seed}")
+    failures, n = [], 0
+    for cname, lines in classes:
+        cls = getattr(mod, cname)
+        for x in (-3, -2, 0, 1, 2, 3, 4):
+            en = rnd.random() < 0.3; n += 1
+            distinct.add(case_hash("meth", lines, x, en))
+            why = []; out = sch = None
+            try:
+                settings.serialization.exclude_none = en
+                sch = serialization_schema(cls, with_schema=False)
+                try: out = serialize(cls, cls(x))
+                except RuntimeError: hist["methods:error-propagated"] += 1; continue      # no handler / a handler that re-raises
+                if not jsonschema.Draft202012Validator(sch).is_valid(out): why.append("serialized-value-does-not-validate-against-serialization_schema")
+            except Exception as e: why.append("raises:" + type(e).__name__ + ":" + str(e)[:80])
+            finally: settings.serialization.exclude_none = False
+            hist["methods:" + ("error-path" if x < 0 else "normal-path")] += 1
+            if why:
+                failures.append({"kind": "P", "part": "converted", "features": ["serialized-method"], "py": cname, "conversion": None, "mode": "serialized-method",
+                                 "class_src": lines, "value": f"{cname}({x})", "so": {"exclude_none": en}, "serialized": out, "real": sch, "why": why, "k_ok": None})
+    return failures, n
